@@ -70,7 +70,33 @@ impl TransportFn<()> for RawRun {
             if violated() {
                 break;
             }
-            match choose(12) {
+            match choose(13) {
+                12 => {
+                    // blocking receive: posts the caller's buffer and waits for the device to fill
+                    // it. Only called when it can complete and is unambiguous: nothing else posted,
+                    // nothing delivered and unconsumed, and a frame on its way to the device.
+                    let idle = rx.is_empty() && with(|w| w.personality::<NetDev>().delivered.is_empty() && w.personality::<NetDev>().inbound.is_empty());
+                    if idle {
+                        nframes += 1;
+                        let f = frame(nframes, frame_len_pick(1526 - hl));
+                        with(|w| w.personality::<NetDev>().inbound.push_back(f.clone()));
+                        let mut buf = vec![0xCCu8; 1526 + choose(64) as usize];
+                        let r = net.receive_wait(&mut buf);
+                        oplog(|| format!("receive_wait (frame of {} bytes on its way) -> {r:?}", f.len()));
+                        let rec = with(|w| w.personality::<NetDev>().delivered.pop_front());
+                        match (r, rec) {
+                            (Ok((h, l)), Some(rec)) => {
+                                if h != hl || l != f.len() {
+                                    violation("net-rx-length", "receive_wait", format!("returned header {h} packet {l}; device wrote header {hl} frame {}", f.len()));
+                                } else if buf[h..h + l] != f[..] || buf[..h] != rec.hdr[..] {
+                                    violation("net-rx-data", "receive_wait", "received bytes differ from what the device wrote".into());
+                                }
+                                nontrivial();
+                            }
+                            (r, rec) => violation("net-receive-wait", "receive_wait", format!("{r:?}; device delivered: {}", rec.is_some())),
+                        }
+                    }
+                }
                 0 | 1 => {
                     // post a receive buffer
                     let len = match choose(12) {
@@ -266,6 +292,7 @@ pub fn raw_run() {
 
 struct BufRun {
     short: bool,
+    mac: [u8; 6],
 }
 
 impl TransportFn<()> for BufRun {
@@ -355,8 +382,16 @@ impl TransportFn<()> for BufRun {
                 7 | 8 => {
                     nframes += 1;
                     let f = frame(nframes, frame_len_pick(1514));
-                    let mut tb: TxBuffer = net.new_tx_buffer(f.len());
-                    tb.packet_mut().copy_from_slice(&f);
+                    let tb: TxBuffer = if flip(1, 3) {
+                        TxBuffer::from(&f)
+                    } else {
+                        let mut tb = net.new_tx_buffer(f.len());
+                        tb.packet_mut().copy_from_slice(&f);
+                        tb
+                    };
+                    if tb.packet_len() != f.len() || tb.packet() != &f[..] {
+                        violation("net-tx-buffer", "TxBuffer", format!("buffer for a {}-byte frame has packet_len {}", f.len(), tb.packet_len()));
+                    }
                     let r = net.send(tb);
                     oplog(|| format!("send({}) -> {r:?}", f.len()));
                     if let Err(e) = r {
@@ -367,6 +402,32 @@ impl TransportFn<()> for BufRun {
                 _ => {
                     let _ = net.ack_interrupt();
                     let _ = net.can_send();
+                    if flip(1, 2) {
+                        net.disable_interrupts();
+                    } else {
+                        net.enable_interrupts();
+                    }
+                    if net.mac_address() != self.mac {
+                        violation("net-mac", "mac_address", format!("{:x?} vs device {:x?}", net.mac_address(), self.mac));
+                    }
+                    // a held buffer stays the caller's: what it writes there, it reads back, and
+                    // nothing else changes it
+                    if let Some(b) = held.last_mut() {
+                        let l = b.packet_len();
+                        let before = b.packet().to_vec();
+                        if b.packet_mut().len() != l {
+                            violation("net-rx-length", "packet_mut", format!("packet_mut() is {} bytes, packet_len() {l}", b.packet_mut().len()));
+                        }
+                        for x in b.packet_mut().iter_mut() {
+                            *x = !*x;
+                        }
+                        if b.packet().iter().zip(before.iter()).any(|(a, o)| *a != !*o) {
+                            violation("net-rx-data", "packet_mut", "bytes written through packet_mut() are not what packet() returns".into());
+                        }
+                        for x in b.packet_mut().iter_mut() {
+                            *x = !*x;
+                        }
+                    }
                 }
             }
             let (post, done) = with(|w| (posted(w, 0), w.personality::<NetDev>().delivered.len()));
@@ -413,14 +474,17 @@ fn buf(short: bool) {
     if tk.legacy() {
         feats &= !F_VERSION_1;
     }
-    zoo::setup_device(Kind::Net, feats, Kind::Net.default_config());
+    let mut cfg = Kind::Net.default_config();
+    let mac = [0x52, 0x54, choose(256) as u8, choose(256) as u8, choose(256) as u8, choose(256) as u8];
+    cfg[0..6].copy_from_slice(&mac);
+    zoo::setup_device(Kind::Net, feats, cfg);
     with(|w| {
         let mut d = NetDev::new();
         d.short_len = short;
         w.dev = Some(Box::new(d));
     });
     oplog(|| format!("VirtIONet over {tk:?} features {feats:#x} policy {:?}", with(|w| (w.cfg.serve, w.cfg.suppress))));
-    if let Err(e) = zoo::with_transport(tk, BufRun { short }) {
+    if let Err(e) = zoo::with_transport(tk, BufRun { short, mac }) {
         violation("transport-construction-failed", "zoo", e);
     }
 }
